@@ -34,6 +34,13 @@ mod scalar {
     use ::glam_scalar as glam;
     include!("suite.rs");
 }
+/// scalar-math with `glam-assert`: the second pass for the scalar copies (a quarter of the volume)
+#[cfg(not(feature = "core"))]
+mod scalar_asserting {
+    pub const VARIANT: &str = "scalar+glam-assert";
+    use ::glam_scalar_assert as glam;
+    include!("suite.rs");
+}
 mod libmv {
     pub const VARIANT: &str = "libm";
     use ::glam_libm as glam;
@@ -63,6 +70,7 @@ fn main() {
         subs.extend(scalar::subs(&args));
         // normalize() on a zero / overflowing vector is a documented glam-assert panic: that sub-check stays out
         subs.extend(asserting::subs(&args).into_iter().filter(|s| !s.name.starts_with("normalize/")));
+        subs.extend(scalar_asserting::subs(&args).into_iter().filter(|s| !s.name.starts_with("normalize/")).map(|s| s.with_div(4)));
         subs.extend(libmv::subs(&args));
     }
     #[cfg(feature = "core")]
